@@ -14,6 +14,7 @@ type GenCfg struct {
 	MaxRep   int  // maximum iterations when sampling a repetition (default 3)
 	MinFlags int  // at least that many flags
 	Exotic   bool // exotic positionals ("", "a=b", non-ASCII)
+	NoGroup  bool // no option groups (pumped inputs: the ideal group semantics is subset-valued)
 }
 
 func intn(t *rapid.T, n int, label string) int {
@@ -91,7 +92,7 @@ func (g *specGen) atom() *Node {
 		case k < 7 && !g.ddSeen:
 			return &Node{Kind: KOpt, Opt: intn(t, len(g.d.Opts), "opt"), UseName: intn(t, 3, "use"),
 				Annotated: rapid.SampledFrom(annotations).Draw(t, "ann")}
-		case k < 10 && !g.ddSeen:
+		case k < 10 && !g.ddSeen && !g.cfg.NoGroup:
 			if chance(t, 1, 2, "allopts") {
 				all := make([]int, len(g.d.Opts))
 				for i := range all {
@@ -183,6 +184,9 @@ type argvGen struct {
 	t   *rapid.T
 	d   *Decls
 	cfg GenCfg
+	// pumping: one repetition node is iterated pumpCount times, whatever the item cap says
+	pumpNode  *Node
+	pumpCount int
 }
 
 func (g *argvGen) optItem(o int) Item {
@@ -217,6 +221,12 @@ func (g *argvGen) sample(n *Node, out *[]Item) {
 			g.sample(n.Kids[0], out)
 		}
 	case KRep:
+		if n == g.pumpNode {
+			for i := 0; i < g.pumpCount; i++ {
+				g.sample(n.Kids[0], out)
+			}
+			return
+		}
 		for i, c := 0, rapid.IntRange(1, maxRep).Draw(t, "reps"); i < c && (i == 0 || len(*out) < itemCap); i++ {
 			g.sample(n.Kids[0], out)
 		}
@@ -236,6 +246,23 @@ func (g *argvGen) sample(n *Node, out *[]Item) {
 			*out = append(*out, Item{Opt: -1, Pos: "--"})
 		}
 	}
+}
+
+// SamplePumped samples a sentence in which one repetition (chosen at random) is iterated count times.
+func SamplePumped(t *rapid.T, d *Decls, ast *Node, cfg GenCfg, count int) ([]Item, bool) {
+	var reps []*Node
+	ast.Walk(func(n *Node) {
+		if n.Kind == KRep {
+			reps = append(reps, n)
+		}
+	})
+	if len(reps) == 0 {
+		return nil, false
+	}
+	g := &argvGen{t: t, d: d, cfg: cfg, pumpNode: reps[intn(t, len(reps), "pumpnode")], pumpCount: count}
+	var items []Item
+	g.sample(ast, &items)
+	return items, true
 }
 
 // SampleItems walks the AST and emits the items of one sentence.
